@@ -41,4 +41,62 @@ theorem conf_extended_hour_minutes {k t} (h : Conf g_extended_hour_minutes false
   build_simp [buildExtendedHourMinutes, *]
   exact (buildExt_safe (by omega)).mono (fun v hv => by omega)
 
+
+/-- an event with an offset within ±24:00 -/
+def Time.wfVar : Time → Prop
+  | .variable _ off => -1440 ≤ off ∧ off ≤ 1440
+  | .fixed _ => False
+
+theorem conf_variable_time {k t} (h : Conf g_variable_time false k t) :
+    ∃ x, k = [x] ∧ Good .variable_time buildVariableTime Time.wfVar x := by
+  conf_unfold [g_variable_time] at h
+  conf_destruct [conf_event, conf_plus_or_minus, conf_hour_minutes]
+  · refine ⟨_, rfl, rfl, ?_⟩
+    build_simp [buildVariableTime]
+    safe_bind
+    safe_bind
+    safe_bind
+    split
+    · omega
+    · split <;> simp [Time.wfVar] <;> omega
+  · refine ⟨_, rfl, rfl, ?_⟩
+    build_simp [buildVariableTime]
+    safe_bind
+    simp [Time.wfVar]
+
+
+theorem Time.wfVar.start {t : Time} (h : Time.wfVar t) : t.wfStart = true := by
+  cases t with
+  | fixed m => cases h
+  | variable ev off => simpa [Time.wfStart, Time.wfVar] using h
+
+theorem Time.wfVar.stop {t : Time} (h : Time.wfVar t) : t.wfStop = true := by
+  cases t with
+  | fixed m => cases h
+  | variable ev off => simpa [Time.wfStop, Time.wfVar] using h
+
+theorem conf_time {k t} (h : Conf g_time false k t) :
+    ∃ x, k = [x] ∧ Good .time buildTime (fun t => t.wfStart = true) x := by
+  conf_unfold [g_time] at h
+  conf_destruct [conf_hour_minutes, conf_variable_time]
+  · refine ⟨_, rfl, rfl, ?_⟩
+    build_simp [buildTime, *]
+    safe_bind
+    simpa [Time.wfStart]
+  · refine ⟨_, rfl, rfl, ?_⟩
+    build_simp [buildTime, *]
+    exact Safe.mono (by assumption) (fun _ => Time.wfVar.start)
+
+theorem conf_extended_time {k t} (h : Conf g_extended_time false k t) :
+    ∃ x, k = [x] ∧ Good .extended_time buildExtendedTime (fun t => t.wfStop = true) x := by
+  conf_unfold [g_extended_time] at h
+  conf_destruct [conf_extended_hour_minutes, conf_variable_time]
+  · refine ⟨_, rfl, rfl, ?_⟩
+    build_simp [buildExtendedTime, *]
+    safe_bind
+    simpa [Time.wfStop]
+  · refine ⟨_, rfl, rfl, ?_⟩
+    build_simp [buildExtendedTime, *]
+    exact Safe.mono (by assumption) (fun _ => Time.wfVar.stop)
+
 end OH.Proofs.SynTotal
